@@ -153,14 +153,16 @@ def run_asm_format(args, stdin=None, inproc=True):
     return {"exit_code": cp.returncode, "stdout": cp.stdout.decode(), "stderr": cp.stderr.decode(), "exception": None}
 
 
+INPUT_PREFIXES = ("input.", "pretext.", "v1.", "current.")
+
+
 def output_files(cr, exclude_inputs=True):
-    skip = {"input.fa", "input.fa.fai", "input.fa.agp", "input.tpf", "input.agp", "pretext.agp"} if exclude_inputs else set()
-    return {p.name: p.read_bytes() for p in sorted(cr["dir"].iterdir()) if p.is_file() and p.name not in skip}
+    return {p.name: p.read_bytes() for p in sorted(cr["dir"].iterdir()) if p.is_file() and not (exclude_inputs and p.name.startswith(INPUT_PREFIXES))}
 
 
 def clear_outputs(cr):
     for p in cr["dir"].iterdir():
-        if p.is_file() and p.name not in {"input.fa", "input.fa.fai", "input.fa.agp", "input.tpf", "input.agp", "pretext.agp"}:
+        if p.is_file() and not p.is_symlink() and not p.name.startswith(INPUT_PREFIXES):
             p.unlink()
 
 
